@@ -82,6 +82,10 @@ pub fn lark_items() -> Vec<Item> {
         lark("think", "start: /(.|\\n)*/ \"</t>\" addr\naddr: %json {\"type\":\"object\",\"properties\":{\"zip\":{\"type\":\"number\"}},\"required\":[\"zip\"],\"additionalProperties\":false}", &["hm\n</t>{\"zip\":12}"]),
         lark("and-alt", "start: W | N\nW: /[a-z]+/ & ~/.*bb.*/\nN: /[0-9]+/ & /[0-9]*[05]/", &["abab", "125"]),
         lark("and-seq", "start: \"<\" (W | N) \">\"\nW: /[ab]{1,3}/ & /a.*/\nN: /[0-9]{2}/ & ~/1./", &["<ab>", "<25>"]),
+        // lexemes that subsume the JSON string-character slice but not the whitespace slice, with blank tokens allowed
+        lark("no-cr", "start: /[^\\r]*/", &["a b\n\tc", "x\n\n y", "\t\n"]),
+        lark("comment", "start: (C \"\\n\")+\nC: /#[^\\n]*/", &["#a b\n#\tc\n"]),
+        lark("text-tab", "start: T (WS T)*\nT: /[^\\t]+/\nWS: /\\t+/", &["a b\t\tc\nd", "\n \t\n"]),
         lark("mutual", "start: a\na: \"x\" b | \"y\"\nb: \"z\" a | \"w\"", &["xzxzy", "xw"]),
     ]
 }
